@@ -1,5 +1,6 @@
 import Grol.Registers
 import GrolProofs.RegRewrite
+import Grol.Generated.RegFacts
 /-
 C05 — integer registers are unobservable.
 
@@ -147,4 +148,32 @@ example : modifyRegister "i" 0 (.stmts [.post "INCR" "i"]) = none ∧
     modifyRegister "i" 0 (.builtin "DEL" [.ident "i"]) = none ∧
     modifyRegister "i" 0 (.fn none [] false true "" (.stmts [])) = none := ⟨rfl, rfl, rfl, rfl, rfl⟩
 
+end Grol.RegRewrite
+
+/-! ### the eligibility tests of the Go source, pinned (regenerated from eval/eval.go on every run)
+
+The parameter site (`extendFunctionEnv`) is driven for real by the `regrewrite` suite.  The loop site
+(`evalForInteger`) cannot be observed without running the loop: its test is pinned here as source text, and
+`Grol.RegRewrite.registerEligible noReg f name = (name != "" && !noReg && f.hasRegisters && !isConstant name)`
+is that text with `s.NoReg` ↦ `noReg`, `s.env.HasRegisters()` ↦ `f.hasRegisters`, `object.Constant` ↦ `isConstant`.
+The parameter test is the same conjunction without `name != ""` (the empty name is a constant name:
+`isConstant "" = true`), with the integer test (`isInt` in `useRegister`) and `!ownName` (the parameter is not
+named like the function itself; the hook's function has no name). A change of either expression fails here. -/
+namespace Grol.Generated.RegFacts
+
+theorem C05.loop_eligibility_pinned :
+    loopEligibility = ["name != \"\" && !s.NoReg && s.env.HasRegisters() && !object.Constant(name)"] := by decide
+
+theorem C05.param_eligibility_pinned :
+    paramEligibility = ["!s.NoReg && pval.Type() == object.INTEGER && env.HasRegisters() && !object.Constant(param.Value().Literal()) && !ownName"] ∧
+    paramOwnName = ["fn.Name != nil && fn.Name.Literal() == param.Value().Literal()"] := by decide
+
+end Grol.Generated.RegFacts
+
+namespace Grol.RegRewrite
+/-- the model's test, literally the pinned conjunction; and the empty name is never eligible at the parameter
+site either, where `name != ""` is not tested -/
+theorem C05.registerEligible_is_the_pinned_test (noReg : Bool) (f : Reg.File) (name : String) :
+    registerEligible noReg f name = (name != "" && !noReg && f.hasRegisters && !Grol.E.isConstant name) ∧
+    Grol.E.isConstant "" = true := ⟨rfl, by decide⟩
 end Grol.RegRewrite
